@@ -1080,7 +1080,7 @@ func (x *extractor) sortAll() {
 // Run is the `tgen-errors` command.
 func Run(args []string) {
 	out := "/verif/lean/JSight/Generated/ErrorTable.lean"
-	root := "/repo"
+	root := vh.RepoRoot()
 	if len(args) > 0 && args[0] != "" {
 		out = args[0]
 	}
